@@ -150,8 +150,6 @@ func (e *Encoder) writeObject(data interface{}) (int, error) {
 		length, _ = e.writeClsDef(typ, clsName)
 	}
 	if byte(length) <= _objectTagMaxLen {
-		// NOTE: when length=2, length+_objectLenTagMin='b', the same as the binary chunk start with,
-		// which will be special processed in decoder
 		e.writeBT(byte(length) + _objectLenTagMin)
 	} else {
 		e.writeBT(_objectTag)
